@@ -376,6 +376,9 @@ Third:
 		}
 	case '\n':
 		l.emit('\n')
+		if l.heredoc.exists() && !l.scanHeredoc() {
+			return nil
+		}
 		if !l.linebreak() {
 			return nil
 		}
@@ -402,6 +405,9 @@ In:
 			l.emit(WORD)
 		case ';', '\n':
 			l.emit(tok)
+			if tok == '\n' && l.heredoc.exists() && !l.scanHeredoc() {
+				return nil
+			}
 			if !l.linebreak() {
 				return nil
 			}
@@ -695,6 +701,15 @@ Redir:
 }
 
 func (l *lexer) lexHeredoc() action {
+	if !l.scanHeredoc() {
+		return nil
+	}
+	return l.lexToken('\n')
+}
+
+// scanHeredoc scans the here-documents which are pending at a <newline>.
+// It returns false when lexing cannot continue.
+func (l *lexer) scanHeredoc() bool {
 	find := func(r *ast.Redir, delim string) bool {
 		for i := len(l.word) - 1; i >= 0; i-- {
 			if l.word[i].Pos().Col() == 1 {
@@ -735,7 +750,7 @@ func (l *lexer) lexHeredoc() action {
 			if err != nil {
 				if !l.heredoc.exists() {
 					if l.lit(); find(h, delim) {
-						return nil
+						return false
 					}
 				}
 				goto Error
@@ -778,14 +793,14 @@ func (l *lexer) lexHeredoc() action {
 					l.lit()
 					l.mark(-1)
 					if !l.scanParamExp() {
-						return nil
+						return false
 					}
 				case '`':
 					// command substitution
 					l.lit()
 					l.mark(-1)
 					if !l.scanCmdSubst('`') {
-						return nil
+						return false
 					}
 				default:
 					l.b.WriteRune(r)
@@ -799,10 +814,10 @@ func (l *lexer) lexHeredoc() action {
 			if err == io.EOF {
 				l.error(h.OpPos, "syntax error: here-document delimited by EOF")
 			}
-			return nil
+			return false
 		}
 	}
-	return l.lexToken('\n')
+	return true
 }
 
 func (l *lexer) scanArithExpr(pos ast.Pos) int {
@@ -1552,6 +1567,9 @@ func (l *lexer) linebreak() bool {
 			l.comment(hash)
 			hash = false
 			l.mark(0)
+			if l.heredoc.exists() && !l.scanHeredoc() {
+				return false
+			}
 		case '#':
 			// comment
 			if hash {
